@@ -4,7 +4,7 @@
    entries the stage never writes are modelled by the marker UNSET (the C code leaves them
    uninitialised).  Executable, no proofs.                                                    *)
 From Coq Require Import List ZArith Bool.
-From Lou Require Import Gen.GConst Gen.GChain Model.Table Model.Finish Model.Back Model.Pass.
+From Lou Require Import Gen.GConst Gen.GChain Gen.GProgress Model.Table Model.Finish Model.Back Model.Pass.
 Import ListNotations.
 Local Open Scope Z_scope.
 
@@ -40,7 +40,10 @@ Definition bpass_test (inp : list Z) (r : prule) (pos : Z) : option pmatch :=
   match bdo_test inp (p_test r) pos (-1) (-1) with
   | None => None
   | Some (em, sr, er) =>
-      if sr =? -1 then Some (mkPM pos pos em em) else Some (mkPM pos sr er em)
+      (* pass_endTest (backward): the replaced range may start before the match, but must not end before it *)
+      let sr' := if sr =? -1 then pos else sr in
+      let er' := if sr =? -1 then em else er in
+      if er' <? pos then None else Some (mkPM pos sr' er' em)
   end.
 
 Record bpstate := mkBP {
@@ -87,7 +90,7 @@ Definition bdo_action (inp : list Z) (cap : Z) (r : prule) (m : pmatch) (out pm 
           match bcopy_chars inp cap out2 pm1' (m_sr m) (m_er m) with
           | None => (out2, pm1', None)
           | Some (out3, pm3) =>
-              (out3, set_range pm3 (m_er m) (Z.to_nat (m_end m - m_er m)) (len out3), Some (m_end m))
+              (out3, set_range pm3 (m_er m) (Z.to_nat (m_end m - m_er m)) (len out3), Some (Z.max (m_er m) (m_end m)))
           end
       end
   end.
@@ -100,6 +103,7 @@ Section BStage.
   Variable cap : Z.
 
   Definition bsn := len inp.
+  Definition bstage_inc := match kind with KCorrect => back_correct_inc | KPass => back_pass_inc end.
 
   Fixpoint bfind_rule (c : list prule) (pos : Z) : option (prule * pmatch) :=
     match c with
@@ -125,7 +129,9 @@ Section BStage.
     | Some (r, m) =>
         match bdo_action inp cap r m (bp_out s) (bp_pm s) with
         | (out, pm, None) => (mkBP pos out pm (bp_inc s) (p_idx r :: bp_trace s), false)
-        | (out, pm, Some newpos) => (mkBP newpos out pm (newpos >? pos) (p_idx r :: bp_trace s), true)
+        | (out, pm, Some newpos) =>
+            (* posIncremented after a rule: the expression REGENERATED from the backward makeCorrections / translatePass *)
+            (mkBP newpos out pm (bstage_inc newpos pos (len out) (len (bp_out s))) (p_idx r :: bp_trace s), true)
         end
     | None =>
         if len (bp_out s) + 1 >? cap then (s, false)
@@ -141,10 +147,10 @@ Section BStage.
     end.
 End BStage.
 
-(* a backward match may move the position backwards (no check at pass_endTest there); every step
-   that does not advance is followed by a copy that emits one element and the output never
-   shrinks, so at most capacity + 1 such events happen, with at most length + 1 advancing steps
-   between two of them *)
+(* a backward match never moves the position backwards (pass_endTest), but the replaced range may start
+   before the match; every step that does not advance is followed by a copy that emits one element and
+   the output never shrinks, so at most capacity + 1 such events happen, with at most length + 1
+   advancing steps between two of them (a generous bound) *)
 Definition bstage_fuel (inp : list Z) (cap : Z) : nat := S ((length inp + 2) * (Z.to_nat cap + 3)).
 
 Definition run_bstage (kind : stage_kind) (rules : list prule) (is_space : Z -> bool) (inp : list Z) (cap : Z) : sresult :=
